@@ -40,23 +40,23 @@ def _expect(cond, msg):
 
 
 def _cg_writer_shape(wr: ast.AST) -> dict:
-    """The parent-encoding `if len(entry.parents) == k … else …` ladder of CommitGraph.write_to_file:
-    for each branch how the two slots are filled: ("const", NAME) | ("lookup", i) = parent_pos(entry, entry.parents[i])
-    | ("edges",) = GRAPH_EXTRA_EDGES_NEEDED | len(extra_edges)."""
+    """The parent-encoding `if entry.parents is None … elif len(entry.parents) == k … else …` ladder of
+    CommitGraph.write_to_file: for each branch how the two slots are filled:
+    ("const", NAME) | ("lookup", i) = parent_pos(entry.parents[i]) | ("edges",) = GRAPH_EXTRA_EDGES_NEEDED | len(extra_edges)."""
     ladder = None
     for n in ast.walk(wr):
-        if isinstance(n, ast.If) and isinstance(n.test, ast.Compare) and isinstance(n.test.left, ast.Call) \
-                and isinstance(n.test.left.func, ast.Name) and n.test.left.func.id == "len" \
-                and ast.unparse(n.test.left.args[0]) == "entry.parents" and T.eval_literal(n.test.comparators[0]) == 0:
+        if isinstance(n, ast.If) and ast.unparse(n.test) == "entry.parents is None":
             ladder = n
             break
-    _expect(ladder is not None, "write_to_file: `if len(entry.parents) == 0` ladder not found")
-    branches = []
-    node = ladder
+    _expect(ladder is not None, "write_to_file: `if entry.parents is None` ladder not found")
+    branches = [("unknown", ladder.body)]
+    _expect(len(ladder.orelse) == 1 and isinstance(ladder.orelse[0], ast.If), "write_to_file: ladder has no len() branches")
+    node = ladder.orelse[0]
     while True:
-        k = T.eval_literal(node.test.comparators[0])
-        _expect(isinstance(node.test.ops[0], ast.Eq), "write_to_file: parent ladder uses a comparison other than ==")
-        branches.append((k, node.body))
+        t = node.test
+        _expect(isinstance(t, ast.Compare) and ast.unparse(t.left) == "len(entry.parents)" and isinstance(t.ops[0], ast.Eq),
+                f"write_to_file: unexpected ladder test {ast.unparse(t)}")
+        branches.append((T.eval_literal(t.comparators[0]), node.body))
         if len(node.orelse) == 1 and isinstance(node.orelse[0], ast.If):
             node = node.orelse[0]
         else:
@@ -71,10 +71,9 @@ def _cg_writer_shape(wr: ast.AST) -> dict:
                 if isinstance(v, ast.Name):
                     got[st.targets[0].id] = ("const", v.id)
                 elif isinstance(v, ast.Call) and ast.unparse(v.func) == "parent_pos":
-                    _expect(len(v.args) == 2 and ast.unparse(v.args[0]) == "entry" and isinstance(v.args[1], ast.Subscript)
-                            and ast.unparse(v.args[1].value) == "entry.parents",
+                    _expect(len(v.args) == 1 and isinstance(v.args[0], ast.Subscript) and ast.unparse(v.args[0].value) == "entry.parents",
                             f"write_to_file: unexpected lookup {ast.unparse(v)}")
-                    got[st.targets[0].id] = ("lookup", T.eval_literal(v.args[1].slice))
+                    got[st.targets[0].id] = ("lookup", T.eval_literal(v.args[0].slice))
                 elif ast.unparse(v) == "GRAPH_EXTRA_EDGES_NEEDED | len(extra_edges)":
                     got[st.targets[0].id] = ("edges",)
                 else:
@@ -94,21 +93,22 @@ def translate(repo: Path) -> dict:
     # ---- commit-graph writer shape -------------------------------------------------------------
     wr = T.find_def(cg, "CommitGraph.write_to_file")
     shape = _cg_writer_shape(wr)
-    _expect(set(shape) == {0, 1, 2, "else"}, f"write_to_file: parent ladder has branches {sorted(map(str, shape))}")
-    miss = ("const", "GRAPH_PARENT_MISSING")
-    _expect(shape[0] == (miss, miss, []), f"write_to_file: 0-parent branch is {shape[0]}")
-    _expect(shape[1] == (("lookup", 0), miss, []), f"write_to_file: 1-parent branch is {shape[1]}")
+    _expect(set(shape) == {"unknown", 0, 1, 2, "else"}, f"write_to_file: parent ladder has branches {sorted(map(str, shape))}")
+    none_, miss = ("const", "GRAPH_PARENT_NONE"), ("const", "GRAPH_PARENT_MISSING")
+    _expect(shape["unknown"] == (miss, none_, []), f"write_to_file: unknown-parents branch is {shape['unknown']}")
+    _expect(shape[0] == (none_, none_, []), f"write_to_file: 0-parent branch is {shape[0]}")
+    _expect(shape[1] == (("lookup", 0), none_, []), f"write_to_file: 1-parent branch is {shape[1]}")
     _expect(shape[2] == (("lookup", 0), ("lookup", 1), []), f"write_to_file: 2-parent branch is {shape[2]}")
     # the >2-parent branch: first parent in slot 1, slot 2 points into the extra edge list which receives all
     # parents but the first, the last one flagged
     oc = shape["else"]
     _expect(oc[0] == ("lookup", 0) and oc[1] == ("edges",), f"write_to_file: >2-parent branch fills the slots with {oc[:2]}")
     _expect([r.replace(" ", "") for r in oc[2]] ==
-            ["extra_edges.extend((parent_pos(entry,parent)forparentinentry.parents[1:]))", "extra_edges[-1]|=GRAPH_LAST_EDGE"],
+            ["extra_edges.extend((parent_pos(parent)forparentinentry.parents[1:]))", "extra_edges[-1]|=GRAPH_LAST_EDGE"],
             f"write_to_file: >2-parent branch does {oc[2]}")
     pp = ast.unparse(T.find_def(wr, "parent_pos"))
-    _expect("return oid_to_index[parent]" in pp and "except KeyError" in pp and "raise ValueError" in pp,
-            "write_to_file.parent_pos: a parent outside the graph must raise ValueError")
+    _expect("return oid_to_index.get(parent, GRAPH_PARENT_MISSING)" in pp,
+            "write_to_file.parent_pos: a parent outside the graph must be written as GRAPH_PARENT_MISSING")
     wr_src = ast.unparse(wr)
     chunk_list = None
     for n in ast.walk(wr):
@@ -126,22 +126,23 @@ def translate(repo: Path) -> dict:
             hdr, nchunks = 8, 12
     _expect(hdr is not None, "write_to_file: `offset = 8 + (len(chunks) + 1) * 12` not found")
     gen_src = ast.unparse(T.find_def(cg, "generate_commit_graph"))
-    for frag in ("children.setdefault(parent_id, []).append(commit_id)",
-                 "left_out = [parent_id for parent_id in children if parent_id not in commit_map]",
-                 "while left_out:", "commit_map.pop(commit_id, None) is not None"):
-        _expect(frag in gen_src, f"generate_commit_graph: `{frag}` not found (commits with a parent outside the set must be left out)")
+    _expect("for commit_id, commit_obj in commit_map.items():" in gen_src and "parents=parents_hex" in gen_src
+            and "commit_map.pop(" not in gen_src and "del commit_map" not in gen_src,
+            "generate_commit_graph: expected one entry, with the commit's own parent list, for every requested commit")
     wr_shifts = _shift_consts(wr, ast.LShift) + _shift_consts(wr, ast.RShift)
     _expect(wr_shifts == [2, 32], f"write_to_file: generation/time shifts {wr_shifts}")
     rd = T.find_def(cg, "CommitGraph._parse_chunks")
     rd_consts = T.int_constants(rd)
     _expect(rd_consts.count(16) == 2 and 8 in rd_consts, f"_parse_chunks: record layout constants {rd_consts}")
     rd_src = ast.unparse(rd)
-    for frag in ("parent1_pos < GRAPH_PARENT_MISSING", "parent2_pos < GRAPH_PARENT_MISSING",
-                 "parent2_pos >= GRAPH_EXTRA_EDGES_NEEDED", "parent2_pos & ~GRAPH_EXTRA_EDGES_NEEDED",
-                 "parent1_pos >= len(oids)", "parent2_pos >= len(oids)"):
+    for frag in ("parent1_pos < GRAPH_PARENT_NONE", "parent1_pos == GRAPH_PARENT_MISSING", "parent2_pos < GRAPH_PARENT_NONE",
+                 "parent2_pos == GRAPH_PARENT_MISSING", "parent2_pos >= GRAPH_EXTRA_EDGES_NEEDED",
+                 "parent2_pos & ~GRAPH_EXTRA_EDGES_NEEDED", "parent1_pos >= len(oids)", "parent2_pos >= len(oids)",
+                 "if extra is None or parents is None:", "None if parents is None else"):
         _expect(frag in rd_src, f"_parse_chunks: `{frag}` not found")
     ex_src = ast.unparse(T.find_def(cg, "CommitGraph._parse_extra_edges"))
     for frag in ("offset = index * 4", "offset + 4 <= len(edge_data)", "parent_pos & GRAPH_LAST_EDGE",
+                 "if parent_pos & ~GRAPH_LAST_EDGE == GRAPH_PARENT_MISSING:\n            return None",
                  "parent_pos &= ~GRAPH_LAST_EDGE", "parent_pos < len(oids)", "CHUNK_EXTRA_EDGE_LIST not in self.chunks"):
         _expect(frag in ex_src, f"_parse_extra_edges: `{frag}` not found")
     gp_src = ast.unparse(T.find_def(cg, "CommitGraph.get_parents"))
@@ -978,7 +979,7 @@ def commit_graph_causes(tw: Twin, ll: bool, only: bytes | None = None) -> set:
         if only is not None and e.commit_id != only:
             continue
         real = tw.parents.get(e.commit_id)
-        if real is None or list(e.parents) == real:
+        if real is None or e.parents is None or list(e.parents) == real:
             continue
         octo = len(real) > 2
         stored = real[:2] if octo else real
@@ -1622,12 +1623,13 @@ def stream_ewah(ctx):
 
 
 def _entry_arg(cid: bytes, tree: bytes, parents, gen: int, time: int) -> str:
-    return f"{hx(cid)}:{hx(tree)}:{gen}:{time}:" + (",".join(hx(p) for p in parents) if parents else "-")
+    return f"{hx(cid)}:{hx(tree)}:{gen}:{time}:" + ("?" if parents is None else ",".join(hx(p) for p in parents) if parents else "-")
 
 
 def _real_entries_str(g) -> str:
     from dulwich.objects import hex_to_sha
-    return "ok" + "".join(" " + _entry_arg(hex_to_sha(e.commit_id), hex_to_sha(e.tree_id), [hex_to_sha(p) for p in e.parents],
+    return "ok" + "".join(" " + _entry_arg(hex_to_sha(e.commit_id), hex_to_sha(e.tree_id),
+                                             None if e.parents is None else [hex_to_sha(p) for p in e.parents],
                                              e.generation, e.commit_time) for e in g.entries)
 
 
@@ -1704,18 +1706,20 @@ def stream_cg(ctx):
                 o = bytes([rng.choice([0, 255])]) + o[1:]
             if o not in pool:
                 pool.append(o)
-        outside = [rng.randbytes(20) for _ in range(2)] if rng.random() < 0.2 else []   # such graphs are refused
+        outside = [rng.randbytes(20) for _ in range(2)]
         ents = []
         for o in pool:
             k = rng.choice([0, 1, 1, 2, 2, 3, 4, 6])
             src = pool + (outside if rng.random() < 0.3 else [])
             parents = [rng.choice(src) for _ in range(k)]
+            if rng.random() < 0.05:
+                parents = None                      # an entry read from a file that did not know its parents
             gen = rng.choice([0, 1, 5, 2 ** 30 - 1, 2 ** 30 - 1, 2 ** 30] if rng.random() < 0.2 else [0, 1, 5, 77])
             tm = rng.choice([0, 1, 1_600_000_000, 2 ** 32 - 1, 2 ** 32, 2 ** 33 + 5, 2 ** 34 - 1])
             ents.append((o, rng.randbytes(20), parents, gen, tm))
         rng.shuffle(ents)
         g = CommitGraph(object_format=SHA1)
-        g.entries = [CommitGraphEntry(sha_to_hex(c), sha_to_hex(t), [sha_to_hex(p) for p in ps], gen, tm)
+        g.entries = [CommitGraphEntry(sha_to_hex(c), sha_to_hex(t), None if ps is None else [sha_to_hex(p) for p in ps], gen, tm)
                      for c, t, ps, gen, tm in ents]
         f = BytesIO()
         real = _try(lambda: (g.write_to_file(f), f.getvalue())[1])
@@ -1725,7 +1729,7 @@ def stream_cg(ctx):
     rd_lines, rd_meta = [], []
     for (ents, real), mo in zip(wr_meta, outs):
         ro = "err format" if isinstance(real, list) else "ok " + hx(real)
-        ctx.count("fmt.cg.write", tuple(e[0] for e in ents), True, f"n{len(ents)}:maxp{max(len(e[2]) for e in ents)}")
+        ctx.count("fmt.cg.write", tuple(e[0] for e in ents), True, f"n{len(ents)}:maxp{max(len(e[2] or []) for e in ents)}")
         if mo != ro:
             ctx.disagree("fmt.cg.write", {"entries": [_entry_arg(*e) for e in ents]}, mo[:400], ro[:400])
         if isinstance(real, list):
@@ -1733,7 +1737,7 @@ def stream_cg(ctx):
         rd_lines.append("c14.cg.read " + hx(real))
         rd_meta.append(("dulwich-writer", real, ents))
     # reader on harness-built files with EDGE chunks and odd parent words
-    M, X = 0x70000000, 0x80000000
+    NO, M, X = 0x70000000, 0x7FFFFFFF, 0x80000000
     for _ in range(ctx.budget(150)):
         n = rng.randint(1, 6)
         oids = sorted({rng.randbytes(20) for _ in range(n)})
@@ -1742,17 +1746,17 @@ def stream_cg(ctx):
         if rng.random() < 0.7:
             edges = []
             for _ in range(rng.randint(0, 6)):
-                w = rng.choice([rng.randrange(n), rng.randrange(n), n, n + 3, M])
+                w = rng.choice([rng.randrange(n), rng.randrange(n), rng.randrange(n), n, n + 3, M, NO])
                 if rng.random() < 0.35:
                     w |= X
                 edges.append(w)
         recs = []
         for _ in oids:
             odd = rng.random() < 0.12
-            p1 = rng.choice([n, M - 1, X, M + 1, 2 ** 32 - 1]) if odd else rng.choice([rng.randrange(n), rng.randrange(n), M])
+            p1 = rng.choice([n, NO - 1, X, NO + 1, M - 1, 2 ** 32 - 1]) if odd else rng.choice([rng.randrange(n), rng.randrange(n), NO, M])
             odd = rng.random() < 0.12
-            p2 = rng.choice([n, M + 5, X | 1000, M - 1]) if odd else rng.choice(
-                [rng.randrange(n), M, M, X | rng.randrange(max(len(edges or []), 1) + 1), X])
+            p2 = rng.choice([n, NO + 5, X | 1000, NO - 1, M - 1]) if odd else rng.choice(
+                [rng.randrange(n), NO, NO, M, X | rng.randrange(max(len(edges or []), 1) + 1), X])
             recs.append((rng.randbytes(20), p1, p2, rng.getrandbits(32), rng.getrandbits(32)))
         kw = {}
         r = rng.random()
@@ -1790,20 +1794,20 @@ def stream_cg(ctx):
         if isinstance(g, list):
             continue
         if ents is not None:
-            # direct oracle on the format pair, in the property's words: the reader of the written file gives
-            # every commit's full parent list
+            # direct oracle on the format pair, in the property's words: every answer the reader of the written file
+            # gives is the commit's full parent list; "unknown" (None) exactly when a parent is not in the file
             inside = {e[0] for e in ents}
             for c, _t, ps, _g, _tm in ents:
                 got = g.get_parents(sha_to_hex(c))
-                want = [sha_to_hex(p) for p in ps]
-                if got != want:
-                    octo = len(ps) > 2
-                    stored = ps[:2] if octo else ps
-                    cls = None
-                    if got == [sha_to_hex(p) for p in stored if p in inside]:
-                        cls = "commit-graph-octopus-parents-truncated" if octo else "commit-graph-parent-outside-set-dropped"
+                if ps is None or any(p not in inside for p in ps):
+                    ok = got is None
+                    want = None
+                else:
+                    want = [sha_to_hex(p) for p in ps]
+                    ok = got == want
+                if not ok:
                     ctx.oracle_fail("fmt.cg.roundtrip", {"entries": [_entry_arg(*e) for e in ents], "commit": hx(c)},
-                                    f"reader(writer(entries)) returns {len(got or [])} of {len(want)} parents", cls)
+                                    f"reader(writer(entries)) answers {got!r:.200} for a commit whose parents are {want!r:.200}", None)
                     break
         qs = [e.commit_id for e in g.entries][:4] + [sha_to_hex(rng.randbytes(20))]
         gp_lines.append("c14.cg.getparents " + hx(data) + " " + " ".join(hx(hex_to_sha(q)) for q in qs))
@@ -1998,14 +2002,13 @@ def stream_gate_refs(ctx):
 
 
 def stream_cg_close(ctx):
-    """`generate_commit_graph` describes a commit only together with all of its parents: the set of commits it
-    keeps (for random DAGs and random requested subsets) vs the model's `closeEntries`; direct oracle: every entry
-    it produces carries the commit's full parent list and all of those parents are entries too."""
-    from dulwich.commit_graph import generate_commit_graph
+    """`generate_commit_graph` (direct oracle, no model): one entry for every requested commit that exists, each
+    with the commit's own, full parent list; written and read back, every answer is the full list or None."""
+    from io import BytesIO
+    from dulwich.commit_graph import CommitGraph, generate_commit_graph
     from dulwich.object_store import MemoryObjectStore
-    from dulwich.objects import Commit, Tree, hex_to_sha
+    from dulwich.objects import Commit, Tree
     rng = ctx.rng
-    lines, meta = [], []
     for _ in range(ctx.budget(80)):
         n = rng.randint(1, 10)
         store = MemoryObjectStore()
@@ -2026,23 +2029,27 @@ def stream_cg_close(ctx):
         want = [c for c in commits if rng.random() < rng.choice([0.5, 0.8, 1.0])]
         rng.shuffle(want)
         g = generate_commit_graph(store, [c.id for c in want])
-        got = sorted(e.commit_id for e in g.entries)
-        inside = set(got)
         truth = {c.id: c.parents for c in commits}
-        for e in g.entries:
-            if list(e.parents) != truth[e.commit_id] or any(p not in inside for p in e.parents):
-                ctx.oracle_fail("fmt.cg.close", {"commit": e.commit_id.decode(), "parents": [p.decode() for p in truth[e.commit_id]],
-                                                 "requested": [c.id.decode() for c in want]},
-                                "generate_commit_graph keeps a commit without all of its parents", None)
-        lines.append("c14.cg.close " + " ".join(
-            f"{hx(hex_to_sha(c.id))}:" + (",".join(hx(hex_to_sha(p)) for p in c.parents) or "-") for c in want) if want else "c14.cg.close")
-        meta.append(sorted(hx(hex_to_sha(x)) for x in got))
-    outs = ctx.driver.batch(lines)
-    for ln, real, mo in zip(lines, meta, outs):
-        m = sorted(x for x in mo.split(",") if x != "-") if mo else []
-        ctx.count("fmt.cg.close", ln, True, f"kept{len(real)}")
-        if m != real:
-            ctx.disagree("fmt.cg.close", {"line": ln[:600]}, mo[:300], ",".join(real)[:300])
+        case = {"requested": [c.id.decode() for c in want], "parents": {k.decode(): [p.decode() for p in v] for k, v in truth.items()}}
+        ctx.count("fmt.cg.generate", tuple(c.id for c in want), True, f"n{len(want)}")
+        if sorted(e.commit_id for e in g.entries) != sorted(c.id for c in want) or \
+                any(list(e.parents) != truth[e.commit_id] for e in g.entries):
+            ctx.oracle_fail("fmt.cg.generate", case, "generate_commit_graph does not describe exactly the requested commits "
+                            "with their own parent lists", None)
+            continue
+        if not g.entries:
+            continue
+        f = BytesIO()
+        g.write_to_file(f)
+        g2 = CommitGraph.from_file(BytesIO(f.getvalue()))
+        inside = {c.id for c in want}
+        for c in commits:
+            got = g2.get_parents(c.id)
+            exp = truth[c.id] if c.id in inside and all(p in inside for p in truth[c.id]) else None
+            if got != exp:
+                ctx.oracle_fail("fmt.cg.generate", dict(case, commit=c.id.decode()),
+                                f"written graph answers {got!r:.200}, expected {exp!r:.200}", None)
+                break
 
 
 def stream_reach(ctx):
